@@ -173,11 +173,27 @@ def run(ctx):
     ctx.check(ok, "C15-R3", "compile_grammar:optimize-dominates-compile", "optimize() dominates compile()",
               "compile_grammar compiles a grammar that did not pass through optimize()", site=cg.where())
     if comp:
+        # compile() is applied to the value produced by optimize(): either the very variable that optimize()'s result was
+        # assigned to, or the call result itself (data flow, not the variable's name)
         e = cg.expr(cg.blocks[comp[0]]["term"]["args"][0])
         l = L.root_local(cg, e)
-        nm = cg.local_name(l) if l is not None else "?"
-        ctx.check(nm == "grammar", "C15-R3", "compile_grammar:compiles-optimized-value", "compile() is applied to `grammar` (re-assigned by optimize)",
-                  "compile() is applied to %s" % nm, site=cg.where(comp[0]))
+        opt_dests = {cg.blocks[ob]["term"]["dest"][0] for ob in opt}
+        def from_opt(l, depth=4):
+            if l is None or depth == 0:
+                return False
+            if l in opt_dests:
+                return True
+            for (bi_, si_, k_, p_) in cg.defs().get(l, []):
+                if k_ == "assign" and p_["rv"] == "use":
+                    pl_ = F.op_place(p_["o"])
+                    if pl_ and from_opt(pl_[0], depth - 1):
+                        return True
+                if k_ == "call" and p_["f"].get("def") == GR + "::optimize":
+                    return True
+            return False
+        ok = from_opt(l) or (e[0] == "call" and e[1] == GR + "::optimize") or (e[0] in ("ref",) and False)
+        ctx.check(ok, "C15-R3", "compile_grammar:compiles-optimized-value", "compile() is applied to the value returned by optimize()",
+                  "compile() is applied to %s, which is not the result of optimize()" % F.fmt_expr(e), site=cg.where(comp[0]))
     producers = set(P.callers_of(GR + "::compile")) | set(P.callers_of("llguidance::earley::grammar::CGrammar::from_grammar"))
     exp = {cg.id, GR + "::compile"}
     ctx.check(producers <= exp, "C15-R3", "cgrammar:producers", "CGrammar is produced only by compile_grammar",
